@@ -537,6 +537,24 @@ fn main() {
         ctx.observe_many(fps);
         guard::leave();
     });
+    // soak probes: one long deterministic history per family
+    let soak_n = ctx.tier.pick(3_000usize, 30_000);
+    let soak: Vec<Act> = (0..soak_n)
+        .map(|t| match t % 41 {
+            17 => Act::Attack(SET_TIMES[(t / 41) % 3]),
+            33 => Act::Release(SET_TIMES[(t / 41 + 1) % 3]),
+            _ => Act::Next(((t * 3 + t / 7) % 5) as u8),
+        })
+        .collect();
+    fams.par_iter().for_each(|f| {
+        guard::enter(&json!({"sys":"follow_soak","family":f.name,"steps":soak_n}).to_string());
+        if let Err((k, m)) = (f.run)(2.5, 100.0, &soak) {
+            let short: String = m.chars().rev().take(300).collect::<String>().chars().rev().collect();
+            ctx.violation(&k, json!({"sys":"follow_soak","family":f.name,"steps":soak_n}), format!("{}: soak history of {soak_n} steps: ...{short}", f.name), None);
+        }
+        evals.fetch_add(soak_n as u64, Relaxed);
+        guard::leave();
+    });
     // adaptor
     for &atk in &TIMES {
         for &rel in &TIMES {
@@ -571,7 +589,7 @@ fn main() {
     ctx.add_evals(evals.load(Relaxed));
     ctx.set("exhaustive", json!(false));
     ctx.set("exhaustive_scope", json!("rectifiers: every value of the <=24-bit integer formats (thorough: <=32-bit and every f32), lattice above; follower: every history over the finite action alphabet to the stated depth"));
-    ctx.rule(&format!("rectifiers: full_wave / positive_half_wave / negative_half_wave (functions and Rectifier structs, bare samples and 3-channel frames) over every value of i8 u8 i16 u16 I24 U24 (thorough: i32 u32 too), lattice for wider formats, f32 patterns (thorough: all) and their f64 widening; oracle |signed amplitude| (the value whose negation is unrepresentable excluded) and clamp to the upper / lower side of equilibrium; follower: 17 detector families (peak x 3 rectifiers and RMS windows 1..3 over f32, [f64;2], [i16;1], [u8;2]) x attack, release in {{0,0.5,1,2.5,100,1e6}}^2 x every history of length {depth} over {{next(5 letters), set_attack(3), set_release(3)}}; per step from the OBSERVED previous output l and the detected value d (second instance of the real detect component): out == d + g(l-d) with g = exp(-1/t) (attack iff l<d) within 1 LSB / 4 ulp + 4 ulp(f32) of the gain, between l and d, == d when t = 0; constant input: the distance to the detected value never grows; detect_envelope adaptor (incl. its setters) == direct detector, one pull per output; Detector::peak / peak_positive_half_wave / peak_negative_half_wave / peak_from_rectifier / rms == Detector::new over the same component for every (attack, release) pair, 3-frame input and setter position"));
+    ctx.rule(&format!("rectifiers: full_wave / positive_half_wave / negative_half_wave (functions and Rectifier structs, bare samples and 3-channel frames) over every value of i8 u8 i16 u16 I24 U24 (thorough: i32 u32 too), lattice for wider formats, f32 patterns (thorough: all) and their f64 widening; oracle |signed amplitude| (the value whose negation is unrepresentable excluded) and clamp to the upper / lower side of equilibrium; follower: 17 detector families (peak x 3 rectifiers and RMS windows 1..3 over f32, [f64;2], [i16;1], [u8;2]) x attack, release in {{0,0.5,1,2.5,100,1e6}}^2 x every history of length {depth} over {{next(5 letters), set_attack(3), set_release(3)}}; per step from the OBSERVED previous output l and the detected value d (second instance of the real detect component): out == d + g(l-d) with g = exp(-1/t) (attack iff l<d) within 1 LSB / 4 ulp + 4 ulp(f32) of the gain, between l and d, == d when t = 0; constant input: the distance to the detected value never grows; soak probes: one deterministic history of 3000 (thorough 30000) steps per family; detect_envelope adaptor (incl. its setters) == direct detector, one pull per output; Detector::peak / peak_positive_half_wave / peak_negative_half_wave / peak_from_rectifier / rms == Detector::new over the same component for every (attack, release) pair, 3-frame input and setter position"));
     ctx.sample(json!({"sys":"follow","family":"[u8;2] peak negative","atk":2.5,"rel":0.0,"actions":["next:2","attack:0","next:4","next:1"]}));
     ctx.sample(json!({"sys":"rect","fmt":"U24","v":"8388607"}));
     ctx.assume("integer input alphabets of the follower exclude the format's minimum: the follower negates the detected value and forms l - d, which is representable for every other amplitude");
